@@ -6,3 +6,44 @@ import Mathlib.Tactic.FieldSimp
 import Mathlib.Tactic.Positivity
 import LadimModel.Scalar
 /-! Shared imports for the proof files: an arbitrary linear ordered field. -/
+
+/-!
+`ring` (and `norm_num` inside larger terms) trips over scientific literals with an *integral* value
+such as `1.0`, `18.0`, `86400.0` (kernel type mismatch in `IsNat.of_raw`).  The lemmas below rewrite
+those literals to numerals first; `lits` applies them everywhere.
+-/
+section lits
+variable {α : Type} [Field α] [LinearOrder α] [IsStrictOrderedRing α]
+theorem lit_0 : (0.0 : α) = 0 := by norm_num
+theorem lit_1 : (1.0 : α) = 1 := by norm_num
+theorem lit_2 : (2.0 : α) = 2 := by norm_num
+theorem lit_3 : (3.0 : α) = 3 := by norm_num
+theorem lit_4 : (4.0 : α) = 4 := by norm_num
+theorem lit_6 : (6.0 : α) = 6 := by norm_num
+theorem lit_7 : (7.0 : α) = 7 := by norm_num
+theorem lit_8 : (8.0 : α) = 8 := by norm_num
+theorem lit_9 : (9.0 : α) = 9 := by norm_num
+theorem lit_10 : (10.0 : α) = 10 := by norm_num
+theorem lit_12 : (12.0 : α) = 12 := by norm_num
+theorem lit_15 : (15.0 : α) = 15 := by norm_num
+theorem lit_18 : (18.0 : α) = 18 := by norm_num
+theorem lit_24 : (24.0 : α) = 24 := by norm_num
+theorem lit_28 : (28.0 : α) = 28 := by norm_num
+theorem lit_32 : (32.0 : α) = 32 := by norm_num
+theorem lit_40 : (40.0 : α) = 40 := by norm_num
+theorem lit_60 : (60.0 : α) = 60 := by norm_num
+theorem lit_80 : (80.0 : α) = 80 := by norm_num
+theorem lit_180 : (180.0 : α) = 180 := by norm_num
+theorem lit_218 : (218.0 : α) = 218 := by norm_num
+theorem lit_1000 : (1000.0 : α) = 1000 := by norm_num
+theorem lit_1025 : (1025.0 : α) = 1025 := by norm_num
+theorem lit_1500 : (1500.0 : α) = 1500 := by norm_num
+theorem lit_86400 : (86400.0 : α) = 86400 := by norm_num
+theorem lit_e16 : (1.0e-16 : α) = 1 / 10000000000000000 := by norm_num
+end lits
+
+/-- rewrite integral scientific literals to numerals (hypotheses and goal) -/
+macro "lits" : tactic =>
+  `(tactic| simp only [lit_0, lit_1, lit_2, lit_3, lit_4, lit_6, lit_7, lit_8, lit_9, lit_10, lit_12, lit_15,
+      lit_18, lit_24, lit_28, lit_32, lit_40, lit_60, lit_80, lit_180, lit_218, lit_1000, lit_1025, lit_1500,
+      lit_86400, lit_e16] at *)
